@@ -4,11 +4,20 @@
 use std::cell::RefCell;
 use std::collections::HashMap;
 use std::convert::From;
+#[cfg(not(feature = "verif"))]
 use std::sync::{
     atomic::{AtomicU64 as StdAtomicU64, Ordering},
     Arc, Mutex,
 };
+#[cfg(feature = "verif")]
+use crate::verif::sync::{
+    atomic::{AtomicU64 as StdAtomicU64, Ordering},
+    Arc, Mutex,
+};
+#[cfg(not(feature = "verif"))]
 use std::time::{Duration, Instant as StdInstant};
+#[cfg(feature = "verif")]
+use crate::verif::time::{Duration, Instant as StdInstant};
 
 use crate::atomic64::{Atomic, AtomicF64, AtomicU64};
 use crate::desc::{Desc, Describer};
